@@ -255,14 +255,16 @@ func kindStoresAreConstants(c *core.Ctx, m *serverModel, rule string) (bool, str
 					continue
 				}
 				n++
-				k, isC := facts.ConstInt(st.Val)
+				ks, isC := constIntsOf(st.Val, 3)
 				if !isC {
 					c.Fail(rule, "kind-store/"+facts.FuncName(fn), st.Pos(), "a non-constant value is stored into Request.Kind")
 					return false, "non-constant Kind store in " + facts.FuncName(fn)
 				}
-				if _, known := m.KindNames[k]; !known {
-					c.Fail(rule, "kind-store/"+facts.FuncName(fn), st.Pos(), sprintf("undeclared kind value %d stored into Request.Kind", k))
-					return false, "undeclared Kind value stored"
+				for _, k := range ks {
+					if _, known := m.KindNames[k]; !known {
+						c.Fail(rule, "kind-store/"+facts.FuncName(fn), st.Pos(), sprintf("undeclared kind value %d stored into Request.Kind", k))
+						return false, "undeclared Kind value stored"
+					}
 				}
 			}
 		}
